@@ -101,6 +101,8 @@ GReUpload(r, b, t, mode) ==
 GUploadRace(r, t, t2) ==
   /\ WithCrash /\ Len(bun) < MaxBundles
   /\ DOMAIN Uploadable(t2) # {}     \* the loser is stopped at its first file-list write: it must have one
+  /\ DOMAIN Uploadable(t) # {}      \* ... and so must the winner: against a bundle without file lists the loser's
+                                    \* first list lands next to the descriptor, where nobody reads it (see GReUpload)
   /\ Upload(r, t, 0)
   /\ Log([op |-> "uploadrace", repo |-> r, tree |-> TreeArg(t), loser |-> TreeArg(t2), bulk |-> 0, id |-> Len(bun) + 1])
 
